@@ -1491,6 +1491,35 @@ theorem hb_pred {tr : Trace} (pred : Nat → List Nat)
   | spawn hlt h1 h2 => exact hc _ _ (by simp [edgeB, hlt, h1, h2, syncB])
   | trans _ _ ih1 ih2 => exact ⟨ih2.2 _ ih1.1, fun x hx => ih2.2 _ (ih1.2 x hx)⟩
 
+/-! ### a concrete well-formed trace (used to show that the hypotheses of `discipline_sound` are satisfiable) -/
+
+def mutexTrace : Trace :=
+  [(0, .acq true 0), (0, .wr 7), (0, .rel true 0), (1, .acq true 0), (1, .rd 7), (1, .rel true 0)]
+
+theorem mutexTrace_acq {a t m : Nat} {x : Bool} (h : mutexTrace[a]? = some (t, .acq x m)) :
+    (a = 0 ∧ t = 0 ∨ a = 3 ∧ t = 1) ∧ x = true ∧ m = 0 := by
+  rcases a with _ | _ | _ | _ | _ | _ | a <;> simp [mutexTrace] at h
+  · obtain ⟨h1, h2, h3⟩ := h; subst h1; subst h2; subst h3; simp
+  · obtain ⟨h1, h2, h3⟩ := h; subst h1; subst h2; subst h3; simp
+
+theorem mutexTrace_wf : WF mutexTrace := by
+  constructor
+  · rintro m i t u x htu ⟨a, hai, ha, hna⟩ ⟨a', ha'i, ha', hna'⟩
+    obtain ⟨h1, _, hm⟩ := mutexTrace_acq ha
+    obtain ⟨h2, hx, _⟩ := mutexTrace_acq ha'
+    subst hm; subst hx
+    rcases h1 with ⟨rfl, rfl⟩ | ⟨rfl, rfl⟩ <;> rcases h2 with ⟨rfl, rfl⟩ | ⟨rfl, rfl⟩
+    · exact htu rfl
+    · exact hna 2 (by omega) (by omega) (by simp [mutexTrace])
+    · exact hna' 2 (by omega) (by omega) (by simp [mutexTrace])
+    · exact htu rfl
+  · intro k i j t u h
+    rcases i with _ | _ | _ | _ | _ | _ | i <;> simp [mutexTrace] at h
+  · intro k e t h
+    rcases e with _ | _ | _ | _ | _ | _ | e <;> simp [mutexTrace] at h
+  · intro k r u h
+    rcases r with _ | _ | _ | _ | _ | _ | r <;> simp [mutexTrace] at h
+
 end HB
 
 /-! ## Seen (deprecate.sourceContextCache.encountered) -/
